@@ -408,6 +408,28 @@ def run(prog: Program, res: Result, tier: str) -> None:
     else:
         res.unrecognised("X-CONN", inst, dfd.loc(), "fill of the cut-off "
                          "array not recognised")
+    # no self-bonds: an atom is at distance 0 from itself, so the diagonal of
+    # the cut-off array must be 0 (0 < 0 is false)
+    inst = "_DefaultFuncDict.array has a zero diagonal (no self-bonds)"
+    zero_init = any(isinstance(n, ast.Call) and call_name(n) in (
+        "np.zeros", "numpy.zeros", "np.zeros_like") for n in ast.walk(dfd.node))
+    diag_clear = any(isinstance(n, ast.Call) and call_name(n) in (
+        "np.fill_diagonal", "numpy.fill_diagonal") and len(n.args) >= 2
+        and norm(n.args[1]) in ("0", "0.0") for n in ast.walk(dfd.node))
+    pair_iter = re.search(r"combinations\(.*, 2\)", at) is not None
+    diag_store = any(a_ == b_ for a_, b_ in stores)
+    if diag_clear or (zero_init and pair_iter and not diag_store):
+        res.ok("X-CONN", inst, dfd.loc())
+    elif diag_store or not zero_init:
+        res.bad("X-CONN", "cut-off diagonal", dfd.loc(),
+                f"{inst}: the array is not built from zeros filled only for "
+                "pairs of different atoms (and no np.fill_diagonal(.., 0)): "
+                "the diagonal carries the cut-off of an element with itself, "
+                "and distance 0 < cut-off bonds every atom to itself",
+                instance=inst)
+    else:
+        res.unrecognised("X-CONN", inst, dfd.loc(),
+                         "how the off-diagonal entries are enumerated")
     bfd = prog.cls("BondsFromDistance")
     arr = bfd.methods.get("array")
     cmp_ = [n for n in ast.walk(arr.node) if isinstance(n, ast.Compare)
